@@ -263,6 +263,10 @@ class Exporter:
                     self.dirty = True
                 for t in ts:
                     self.v9[t["id"]] = ("t", t)
+                if self.wild and rng.random() < 0.15:
+                    # an all-zero record header (id 0, no fields) BETWEEN real template records (non-conformant)
+                    ts.insert(rng.randrange(0, len(ts)), {"id": 0, "fieldCount": 0, "fields": []})
+                    self.dirty = True
                 padn = rng.choice([0, 0, 0, 2]) if not self.wild else rng.choice([0, 0, 2, 4, 4, 8])
                 if padn >= 4:
                     self.dirty = True
@@ -502,6 +506,44 @@ def fam_chain(rng, n, max_pkts=6, all_partitions=False):
     return out
 
 
+def fam_chain_minimal(rng, n):
+    """C11: LONG chains (6..60) of minimal self-delimiting packets — header-only V5/V7/V9/IPFIX in every mix, so that the number
+    of packets per byte is maximal — optionally ending in a template message whose data arrives in the next call"""
+    out = []
+    for _ in range(n):
+        ex = Exporter(rng, lossless=True, simple_ipfix=True)
+        k = rng.choice([6, 7, 8, 9, 10, 12, 16, 24, 40, 60])
+        mix = rng.choice([(10,), (9,), (5,), (7,), (10, 9), (5, 7, 9, 10), (10, 10, 10, 5)])
+        msgs = []
+        for _ in range(k):
+            v = rng.choice(mix)
+            if v == 5:
+                msgs.append(msg_v5(rng, 0))
+            elif v == 7:
+                msgs.append(msg_v7(rng, 0))
+            elif v == 9:
+                msgs.append({"v9": {"m": {"count": 0, "sysUpTime": rnat(rng, 4), "unixSecs": rnat(rng, 4), "seq": rnat(rng, 4), "sourceId": rnat(rng, 4), "sets": []}}})
+            else:
+                msgs.append({"ipfix": {"m": {"exportTime": rnat(rng, 4), "seq": rnat(rng, 4), "odid": rnat(rng, 4), "sets": []}}})
+        tail = []
+        if rng.random() < 0.6:
+            v = rng.choice([9, 10])
+            tm = ex.v9_msg(nsets=1) if v == 9 else ex.ip_msg(nsets=1)          # first set of a fresh exporter is a template set
+            msgs.append(tm)
+            tail = rand_packets(rng, ex, 1, versions=(v,))
+        ops = [op_new(0), op_parse(0, msgs=msgs, want=[])]
+        if tail:
+            ops.append(op_parse(0, msgs=tail, want=[]))
+        ops.append(op_new(1))
+        for m in msgs:
+            ops.append(op_parse(1, msgs=[m], want=[]))
+        if tail:
+            ops.append(op_parse(1, msgs=tail, want=[]))
+        ops.append({"op": "assert_chain", "a": 0, "b": 1})
+        out.append(("chain-minimal", ops))
+    return out
+
+
 def raw_version_msg(rng, v):
     return {"raw": {"b": hx(v.to_bytes(2, "big") + rbytes(rng, rng.choice([0, 1, 5, 22, 40])))}}
 
@@ -597,15 +639,22 @@ def fam_allowed_mix(rng, n):
     for _ in range(n):
         ex = Exporter(rng, lossless=True, simple_ipfix=True)
         S = [v for v in (5, 7, 9, 10) if rng.random() < 0.7] + extra_versions(rng, 0.4) + [v for v in (1, 8) if rng.random() < 0.4]
-        msgs = []
-        for _ in range(rng.randrange(1, 5)):
-            if rng.random() < 0.35:
-                msgs.append(raw_version_msg(rng, rng.choice([0, 1, 6, 8, 11, 77, 65535])))
-            else:
-                msgs.extend(rand_packets(rng, ex, 1))
-        o = op_parse(0, msgs=msgs)
-        o["nospec"] = True
-        out.append(("allowed-mix", [op_new(0, allowed=S), o]))
+        ops = [op_new(0, allowed=S)]
+        for call in range(rng.choice([1, 1, 2, 3, 4])):
+            if call > 0 and rng.random() < 0.7:
+                # the caller changes the public allowed set between calls (widen, narrow, replace, empty)
+                S = rng.choice([[5, 7, 9, 10], [v for v in (5, 7, 9, 10) if rng.random() < 0.5], S + [rng.choice([5, 7, 9, 10])], [], [rng.choice([5, 7, 9, 10])]]) + extra_versions(rng, 0.2)
+                ops.append({"op": "allowed", "p": 0, "set": S})
+            msgs = []
+            for _ in range(rng.randrange(0 if call > 0 else 1, 5)):
+                if rng.random() < 0.35:
+                    msgs.append(raw_version_msg(rng, rng.choice([0, 1, 6, 8, 11, 77, 65535])))
+                else:
+                    msgs.extend(rand_packets(rng, ex, 1))
+            o = op_parse(0, msgs=msgs) if msgs else op_parse(0, hexs="")
+            o["nospec"] = True
+            ops.append(o)
+        out.append(("allowed-mix", ops))
     return out
 
 
@@ -726,6 +775,41 @@ def fam_rejected_template(rng, n, want=()):
         o = op_parse(1, msgs=[data], want=list(want)); o["nospec"] = True; ops.append(o)
         ops.append({"op": "assert_same", "a": 0, "b": 1, "key": "C06", "last_only": True})
         out.append(("rejected-template", ops))
+    return out
+
+
+def fam_template_noise(rng, n):
+    """C06: a V9 template flowset in which complete, well-formed template records are separated by an all-zero record header
+    (id 0, field count 0 — what exporters' zero fill looks like to a record parser): every real record must still reach the cache.
+    Twin parser: the same records in separate, clean flowsets; the data that follows must decode identically."""
+    out = []
+    for _ in range(n):
+        ids = rng.sample([256, 257, 300, 301, 1000], rng.choice([2, 3]))
+        old = [v9_template(rng, i, lossless=True) for i in ids]
+        new = [v9_template(rng, i, lossless=True) for i in ids]
+        zero = {"id": 0, "fieldCount": 0, "fields": []}
+        noisy = []
+        for t in new:
+            if noisy or rng.random() < 0.5:
+                noisy.extend([zero] * rng.choice([1, 1, 2]))
+            noisy.append(t)
+        if rng.random() < 0.3:
+            noisy.append(zero)
+
+        def v9m(sets, k):
+            return {"v9": {"m": {"count": len(sets), "sysUpTime": k, "unixSecs": k, "seq": k, "sourceId": 1, "sets": sets}}}
+        data = v9m([{"data": {"id": t["id"], "recs": [v9_record(rng, t) for _ in range(2)], "pad": ""}} for t in new], 3)
+        ops = [op_new(0), op_new(1)]
+        if rng.random() < 0.6:
+            for pid in (0, 1):
+                o = op_parse(pid, msgs=[v9m([{"templates": {"ts": old, "pad": ""}}], 1)], want=[]); o["nospec"] = True; ops.append(o)
+        o = op_parse(0, msgs=[v9m([{"templates": {"ts": noisy, "pad": ""}}], 2)], want=[]); o["nospec"] = True; ops.append(o)
+        o = op_parse(1, msgs=[v9m([{"templates": {"ts": [t], "pad": ""}} for t in new], 2)], want=[]); o["nospec"] = True; ops.append(o)
+        for pid in (0, 1):
+            o = op_parse(pid, msgs=[data], want=[]); o["nospec"] = True; ops.append(o)
+        # the zero record is itself cached as "template 0" by the crate, so the caches differ by that id: compare the decoding
+        ops.append({"op": "assert_same", "a": 0, "b": 1, "key": "C06", "last_only": True, "pkts_only": True})
+        out.append(("template-noise", ops))
     return out
 
 
